@@ -39,11 +39,18 @@ CHECKS = {
         "page_no_double_handout); blocks of a page occupy pairwise disjoint ranges inside the page area; plus the address arithmetic of C16. "
         "Tie: API traces over every entry point on the real allocator with a shadow table (no overlap with any live block, whole usable range "
         "writable, byte pattern of every live block intact, zero-size unique) and every touched page dumped and checked against page_inv_b and the "
-        "model's transition relation. NAMED PARTIAL: the composition of page, span and arena layers into one refinement theorem (C01_refines_map) is "
-        "not machine-checked; cross-page/cross-segment disjointness rests on the overlap oracle and the span-layer theorems where present.",
-   note="Trusted: Coq kernel, extraction, OCaml/C drivers, trace generator. MMU behaviour (accessibility) is observed, not modelled. Single-threaded "
-        "histories (the concurrent case is C02).",
-   technique="Coq proof (inductive invariant over page model) + API-trace differential with shadow oracle; layer theorems, composition partial",
+        "model's transition relation. COMPOSITION (Properties/C01compose.v over Model/Compose.v: segments at base addresses, each with its slice "
+        "array, one page state per span in use, a ghost table of live blocks): the composite invariant is preserved by every operation; in every "
+        "reachable state live blocks are pairwise disjoint and lie inside their page area, span and segment; the pointer resolution of mi_free "
+        "finds exactly the block an address lies in; every operation commutes with the abstraction to the map of live blocks "
+        "(C01_refines_map, also for whole histories); the block malloc returns satisfies the API layer's answer contract, which discharges the "
+        "hypothesis answer_ok of the C03-C06 theorems. Tie of the composition: full-state dumps (all slice arrays, pages, shadow table) of the real "
+        "allocator on which the extracted mem_inv_b and abs are evaluated and compared with the harness's table of live blocks.",
+   note="Trusted: Coq kernel, extraction, OCaml/C drivers, trace generator. MMU behaviour (accessibility) is observed, not modelled; block CONTENTS "
+        "are not in the composite model (kept per block in the API model, observed by the byte-pattern oracle). The composite tie is snapshot-based "
+        "(invariant and abstraction on real states); transitions are replayed exactly per layer (page, span). Single-threaded histories (the "
+        "concurrent case is C02); arenas / commit are C07, C11, C14.",
+   technique="Coq proof (inductive invariants of the page, span and composite models, refinement to the map of live blocks) + API-trace differential with shadow oracle + exact per-layer replay + full-state dumps",
    design="3/C01"),
  "C19": dict(
    text="Machine-checked proof (Coq 8.16.1) over a symbol table regenerated on every run from the shared library built from /repo's working tree "
@@ -211,13 +218,22 @@ CHECKS = {
  "C11": dict(
    text="Machine-checked proof (Coq): _mi_os_free_ex is the inverse of _mi_os_alloc/_mi_os_alloc_aligned(/_at_offset) on a ghost kernel for all sizes, "
         "alignments and all kernel address choices incl. the over-allocate-and-trim path (after the repair of the never-unmapping defect), "
-        "_mi_thread_data_collect frees every cached block, and a forced arena collect leaves no scheduled free block. Tie: OS round trips under the "
-        "shim (ledger before/after identical, system calls = model) and whole-API workloads repeated 4-6 times in three arena configurations (no "
-        "growth of mapped/committed bytes, nothing left outside arenas, thread-data cache empty).",
-   note="NAMED PARTIAL: the whole-workload fixpoint over the segment layer (workload_fixpoint) is observed by the repetition workloads, not proved. "
-        "munmap refusals are excluded by hypothesis (C07); the at_offset theorem needs size, alignment < 2^62; RSS itself is kernel behaviour (the "
-        "ledger follows the system calls). Known finding huge-alloc-reserves-arena (allocations > 64 MiB reserve a fresh arena each).",
-   technique="Coq proof over ghost-kernel model + shim ledger differential + repetition workloads",
+        "_mi_thread_data_collect frees every cached block, and a forced arena collect leaves no scheduled free block. WHOLE WORKLOAD "
+        "(Properties/C11back.v over the commit model Model/Commit.v): after ANY history from the initial state, under any failure oracle, if no "
+        "page is live and no raw arena allocation is held then no segment is left, every arena in-use bit is clear, every block can be claimed "
+        "again and (when the munmaps were granted) no memory outside the arena is accessible; the class of such states contains the initial "
+        "state and is closed under every workload that ends all-freed (workload fixpoint: same segment/page lists, geometry, in-use bitmap and "
+        "outside accessibility; committed/dirty/purge bookkeeping only bounded); after the forced collect no claimable block stays scheduled. "
+        "Tie: OS round trips under the shim (ledger before/after identical, system calls = model); whole-API workloads repeated 4-6 times in five "
+        "arena configurations (no growth of mapped/committed bytes, nothing left outside arenas, thread-data cache empty, thread metadata under "
+        "refused mmaps); and the commit-model lockstep extended by a drain (free everything + mi_collect(true)) at the end of every run, where the "
+        "conclusion is evaluated on the synchronised model state and checked on the real allocator (no segment owned, blocks_inuse clear, nothing "
+        "scheduled, no page, ledger back to the start).",
+   note="munmap refusals are excluded by hypothesis (C07); the at_offset theorem needs size, alignment < 2^62; RSS itself is kernel behaviour (the "
+        "ledger follows the system calls); 'no longer committed' is proved as 'nothing stays scheduled for a purge' plus a decommit example; thread "
+        "exit, several arenas and allocations above 64 MiB are outside the commit model (workloads only). Known finding huge-alloc-reserves-arena "
+        "(allocations > 64 MiB reserve a fresh arena each).",
+   technique="Coq proof over ghost-kernel and commit models (inverse laws, give-back invariant, workload fixpoint) + shim ledger differential + exact lockstep with drain + repetition workloads",
    design="3/C11"),
  "C13": dict(
    text="Machine-checked proof (Coq) of the commit/purge clauses: conservative rounding stays inside and liberal rounding covers the range (segment "
